@@ -87,4 +87,6 @@ def plumbing(ctx: Ctx, clause: str = "S1", g3: bool = True, g4: bool = True):
         R_args.g3_argcheck(ctx.pkg, funcs, ctx.col, clause)
     if g4:
         R_args.g4_affix(ctx.pkg, ctx.res, funcs, ctx.col, clause)
+        R_args.g4_strip_matched(ctx.pkg, funcs, ctx.col, clause)
+    R_args.g16_stale_loop_vars(ctx.pkg, funcs, ctx.col, clause)
     return funcs
